@@ -167,6 +167,13 @@ def bank_histories(mon, spec):
             if ns == 0 and rng.random() < 0.4:
                 r.nsacr.value |= 1 << 19          # NSACR.RFR = 1 restricts FIQ mode in NON-secure state only: no effect here
                 mon.bump('histories_with_nsacr_rfr_in_secure_state')
+        # interrupt / abort routing controls: in Secure state towards Monitor mode, in Non-secure state with the Virtualization
+        # Extensions towards Hyp mode; which bank an entry writes depends on them (each bit drawn on its own: FMO != IMO ...)
+        if cfg['have_security_ext'] and ns == 0 and rng.random() < 0.5:
+            r.scr.irq, r.scr.fiq, r.scr.ea = rng.randrange(2), rng.randrange(2), rng.randrange(2)
+        if cfg['have_virt_ext'] and ns == 1 and rng.random() < 0.7:
+            r.hcr.imo, r.hcr.fmo, r.hcr.amo = rng.randrange(2), rng.randrange(2), rng.randrange(2)
+            r.hcr.tge = 1 if rng.random() < 0.3 else 0
         modes = ctx.legal_modes(ns)
         # cells that exist / are accessible in this configuration and security state
         audit_modes = [m for m in ('usr', 'fiq', 'irq', 'svc', 'abt', 'und', 'sys') if m in modes]
@@ -277,6 +284,11 @@ def bank_histories(mon, spec):
                 kind = rng.choice(['svc', 'undef', 'irq', 'fiq', 'dabort'])
                 M.activate(cpu)
                 r.branch_to(0x10000)
+                from vf import observe as _obs
+                from vf.ref.model import RefCPU, RefAbort
+                refc = RefCPU(_obs.snapshot(cpu, mem=False), cfg)
+                {'svc': refc.take_svc, 'undef': refc.take_undef, 'irq': refc.take_irq, 'fiq': refc.take_fiq,
+                 'dabort': lambda: refc.take_data_abort(RefAbort('permission', 0, False))}[kind]()
                 if kind == 'svc':
                     r.take_svc_exception()
                 elif kind == 'undef':
@@ -297,6 +309,14 @@ def bank_histories(mon, spec):
                                dict(ctx=list(ctxkey), ops=ops + [what]))
                     break
                 new = new[0]
+                if newbits != refc.mode:
+                    # the entry went to another mode than the routing rules select: it has written the SPSR and LR of a bank
+                    # that must stay untouched (and left the right one stale)
+                    mon.report('C10|banking|exception-wrote-wrong-bank|%s' % kind,
+                               '%s (SCR %#x HCR %#x) entered %s, the routing rules select %s' % (
+                                   what, r.scr.value, r.hcr.value, new, M.MODE_NAMES.get(refc.mode, bin(refc.mode))),
+                               dict(ctx=list(ctxkey), ops=ops + [what]))
+                    break
                 mon.bump('exception_entries')
                 mon.res['nontrivial'].add('exc|%s|%s|%s' % (kind, cur, new))
                 # entry writes SPSR_<new> and LR_<new> (ELR_hyp instead of LR for Hyp): adopt them, judge the rest
